@@ -173,6 +173,21 @@ def two_grid_spec(rng, tie=False):
     return spec
 
 
+def size_matched_window(rng, grid, m):
+    """a requested grid (a run of native points) that clip_native_to_wngrid turns into exactly m native points"""
+    from taurex.util.util import clip_native_to_wngrid
+    if not 2 <= m < len(grid):
+        return None
+    starts = list(range(0, len(grid) - 1))
+    rng.shuffle(starts)
+    for s0 in starts[:12]:
+        for ln in range(m, 1, -1):
+            w = grid[s0:s0 + ln]
+            if len(w) >= 2 and len(clip_native_to_wngrid(grid, w)) == m:
+                return w
+    return None
+
+
 def models(ctx, rng):
     from taurex.binning import FluxBinner
     for i in range(ctx.n(25, 200)):
@@ -191,11 +206,21 @@ def models(ctx, rng):
         with np.errstate(all='ignore'):
             res = model.model(wngrid=obs, cutoff_grid=True)
             sub = model.model(wngrid=grid[len(grid) // 4: 3 * len(grid) // 4], cutoff_grid=True)
+        # windows whose clipped native grid has exactly as many points as something else in the model (another
+        # molecule's table, the layers, the temperature / pressure grids): a restriction must not depend on such
+        # coincidences of size
+        extra = []
+        sizes = sorted(set([len(spec['opac'][g]['wn']) for g in spec['gases']] + [spec['nlayers'], 3]))
+        for m in sizes:
+            w = size_matched_window(rng, grid, m)
+            if w is not None:
+                with np.errstate(all='ignore'):
+                    extra.append(('size-%d' % m, model.model(wngrid=w, cutoff_grid=True)))
         slack = 0.0
         if not em:
             Rp, Rs = model.planet.fullRadius, model.star.radius
             slack = math.exp(-10) * float(np.sum(2 * (Rp + model.altitudeProfile) * model.deltaz)) / Rs ** 2
-        for name, r in (('observation', res), ('sub-range', sub)):
+        for name, r in [('observation', res), ('sub-range', sub)] + extra:
             g2 = np.array(r[0])
             idx = np.searchsorted(grid, g2)
             ok_grid = np.all(idx < len(grid)) and np.array_equal(grid[np.minimum(idx, len(grid) - 1)], g2)
